@@ -82,10 +82,18 @@ impl Uci {
                 .load_position(kind, moves)
                 .map_err(|err| format!("Failed to load position: {err}"))?,
             UCICommand::Go { limits } => {
-                if let Some(jh) = &self.join_handle {
-                    if !jh.is_finished() {
+                if let Some(jh) = self.join_handle.take() {
+                    let still_searching = self
+                        .search_running
+                        .as_ref()
+                        .is_some_and(|running| running.load(std::sync::atomic::Ordering::Relaxed));
+                    if !jh.is_finished() && still_searching {
+                        self.join_handle = Some(jh);
                         return Err("Search is already running".to_string());
                     }
+                    // The previous search is over (or was told to stop) but its thread may not
+                    // have exited yet: wait for it instead of dropping this go
+                    let _ = jh.join();
                 }
                 self.go(limits);
             }
